@@ -263,7 +263,11 @@ func (s *Solver) discharge(ob *Obligation, query string, stage int) {
 	ob.Solver = strings.Join(ag, ",")
 }
 
+var buildMu sync.Mutex // query generation touches shared tables (sorts, declarations): one at a time
+
 func (s *Solver) buildSplit(ob *Obligation) {
+	buildMu.Lock()
+	defer buildMu.Unlock()
 	choices := ob.vc.pathChoices(ob.PC, 24)
 	conj := splitConj(ob.Goal)
 	if choices == nil {
